@@ -84,7 +84,9 @@ CHESS_RULE = "valid positions: the 27-FEN corpus (castling through/out of/into c
 PROPS["C01"] = {
     "level": "other",
     "prop_modules": ["Flounder.Props.C01"],
-    "budget": {"quick": [("c01", 6000)], "thorough": [("c01", 400000)], "search": [("c01", 800000)]},
+    # the search pass also dumps the attack tables exhaustively: when a table constant changed (the kernel facts of C10 no longer
+    # check) the (square, occupancy) whose attack set is wrong is the most direct failing input for the generator built on it
+    "budget": {"quick": [("c01", 6000)], "thorough": [("c01", 400000)], "search": [("c01", 800000), ("c10x", 20000)]},
     "rule": CHESS_RULE + "; per board three operations: the SET of generated moves (sorted, duplicates kept) vs model vs Spec.legalMoves, the ORDERED list vs model, the check test vs Spec.inCheck",
     "explanation": "C01's full theorem (GenerateMovesExact: Nodup + generated = Spec.legal + check test exact, for every Valid board) is stated in Props/C01.lean and is not closed yet; what is machine-checked so far is listed under 'theorems' (filter structure, double check, and the table exactness it relies on via Spec.LookupExact when Props/C10 is closed). Until the layers L2-L7 of DESIGN.md are closed this property is decided per position by the three-way correspondence: real generate_moves vs the Lean model vs the executable FIDE spec (Spec/Chess.lean) — a bounded, sampled decision, labelled as such.",
     "trusted_base": [KERNEL, AXIOMS, TIE, EXTRACT, "Spec/Chess.lean (FIDE rules on a mailbox board, ~230 lines) is the meaning of 'legal'"],
@@ -94,7 +96,7 @@ PROPS["C01"] = {
 }
 PROPS["C02"] = {
     "level": "proof",
-    "budget": {"quick": [("c02", 8000), ("c04", 40)], "thorough": [("c02", 1500000), ("c04", 4000)], "search": [("c02", 2000000), ("c04", 8000)]},
+    "budget": {"quick": [("c02", 8000), ("c04", 250)], "thorough": [("c02", 1500000), ("c04", 4000)], "search": [("c02", 2000000), ("c04", 8000)]},
     "rule": "every legal move of every corpus position, then random games of 1-600 plies from corpus/generated valid positions with the board compared (all 8 bitboards, side, rights, ep, counters) after EVERY ply against the model and against Spec.play; plus a malformed stream (arbitrary boards x arbitrary moves) for make_move totality incl. panics; and moves applied through the engine's own `position ... moves` path (generator c04: several related position commands per engine, board after each vs the fold of Spec.play); distinct = distinct (board, move) pairs",
     "trusted_base": [KERNEL, AXIOMS, TIE, EXTRACT, "Spec/Chess.lean play/keepsRight is the meaning of 'successor position'"],
     "assumptions": ["u8/i8 square arithmetic modelled by Nat/Int (wrap-around unreachable on valid boards)"],
@@ -102,7 +104,7 @@ PROPS["C02"] = {
 }
 PROPS["C17"] = {
     "level": "other",
-    "budget": {"quick": [("c17", 5000)], "thorough": [("c17", 300000)], "search": [("c17", 600000)]},
+    "budget": {"quick": [("c17", 5000)], "thorough": [("c17", 300000)], "search": [("c17", 600000), ("c10x", 20000)]},
     "rule": CHESS_RULE + "; per board: generate_quiescence_moves (sorted) vs model vs {legal m | captures or promotes or gives check by the rules}, and the move list search_until_quiet itself selects (hook inside the search) vs model vs (in check ? all legal : tactical)",
     "explanation": "Machine-checked: the selection is exactly the filter of the generated moves by capture|promotion|check, all generated moves when in check (Props/C17.lean). The identification of the engine's is_check with 'gives check under the rules' (FullStatement) depends on C01/C02 and is decided per position by the correspondence until those close.",
     "trusted_base": [KERNEL, AXIOMS, TIE, "hook verif_quiescence_move_set records the list chosen inside search_until_quiet"],
@@ -192,7 +194,7 @@ PROPS["C03"] = {
 PROPS["C04"] = {
     "level": "proof",
     "prop_modules": ["Flounder.Props.C04", "Flounder.Props.C04Gen"],
-    "budget": {"quick": [("c04", 150)], "thorough": [("c04", 20000)], "search": [("c04", 40000)]},
+    "budget": {"quick": [("c04", 300)], "thorough": [("c04", 20000)], "search": [("c04", 40000)]},
     "rule": "1-3 position commands per engine (startpos / FEN of corpus and generated valid positions, counters from {0,1,49,99,100,150} x {1,2,49,255,256,300,5949,65535}, irregular spacing), each followed by a random legal game (0-200 plies, all move kinds, all promotion pieces) written in UCI text by an independent printer; the engine's board after the command vs the model vs the fold of Spec.play; distinct = distinct command lines",
     "trusted_base": [KERNEL, AXIOMS, TIE, EXTRACT, "str::split_whitespace / split / parse modelled over List Char (ASCII white space)", "harness FEN/UCI printers generate the inputs"],
     "assumptions": ["FEN counters below 65536 (the widened field type, re-extracted from fen.rs)"],
